@@ -95,6 +95,12 @@ def default_pools(c, sc, slices, max_slices=None, max_nodes=6, offset=0):
         if x["type"] not in types_seen:
             types_seen.add(x["type"])
             picked.append(x)
+    # ... and the smallest node of each type that carries text (so that misplaced insertions are visible)
+    with_text = set()
+    for x in nodes:
+        if x["type"] not in with_text and '"text"' in tk.jkey(x) and x not in picked and len(picked) < max_nodes + 3:
+            with_text.add(x["type"])
+            picked.append(x)
     for x in nodes:
         if len(picked) >= max_nodes:
             break
@@ -130,7 +136,7 @@ def default_pools(c, sc, slices, max_slices=None, max_nodes=6, offset=0):
         sl = [slices[0], *slices[1 + (offset % stride)::stride]]
     return {
         "slices": sl,
-        "nodes": picked[:max_nodes],
+        "nodes": picked[:max_nodes + 3],
         "marks": gen_steps.schema_marks(model, 4),
         "types": types,
         "textblocks": textblocks,
